@@ -433,6 +433,34 @@ def f_spec_only_rejects(a):
         return canon_exc(e)
 
 
+# ---- C15: digest of everything that must not change
+_PROBE_OBJECTS = []
+
+
+def f_history_probe(a):
+    import hashlib
+    import json as _json
+    if not _PROBE_OBJECTS:
+        _PROBE_OBJECTS.extend([IBAN("DE89370400440532013000"), BIC("GENODEM1GLS"), IBAN("XX00", allow_invalid=True),
+                               IBAN("DE89370400440532013000").bban])
+
+    def norm(x):
+        if isinstance(x, dict):
+            return {str(k): norm(v) for k, v in sorted(x.items(), key=lambda kv: str(kv[0]))}
+        if isinstance(x, (list, tuple)):
+            return [norm(v) for v in x]
+        if isinstance(x, re.Pattern):
+            return ["re", x.pattern, x.flags]
+        return x if isinstance(x, (str, int, bool, type(None))) else str(x)
+    from schwifty import checksum
+    state = {
+        "registry": norm(registry._registry),
+        "algorithms": sorted(checksum.algorithms),
+        "objects": [[type(o).__name__, str(o), getattr(o, "country_code", None), norm(getattr(o, "__dict__", {}))] for o in _PROBE_OBJECTS],
+    }
+    return hashlib.sha256(_json.dumps(state, sort_keys=True).encode()).hexdigest()
+
+
 # ---- C16: value semantics and copies on the real objects
 def _mk(kind, t):
     if kind == "iban":
